@@ -73,9 +73,11 @@ func (l *Lexer) NextToken() token.Token {
 	l.skipWhitespace()
 
 	// skip single-line comments
-	if l.ch == rune('/') && l.peekChar() == rune('/') {
+	//
+	// (Any number of them, in a loop: a recursive call per comment
+	// would let a long run of comments exhaust the stack.)
+	for l.ch == rune('/') && l.peekChar() == rune('/') {
 		l.skipComment()
-		return (l.NextToken())
 	}
 
 	switch l.ch {
